@@ -524,3 +524,107 @@ func TestTinyGames(t *testing.T) {
 		}
 	}
 }
+
+// ---------------------------------------------------------------------------
+// C14 — two hands alive at the same time (tables of one tournament): decks come
+// straight from the engine's constructors, as table/ builds them, operations of
+// the two hands are interleaved, each hand is watched by its own card monitor.
+// ---------------------------------------------------------------------------
+
+type twoCase struct {
+	A     *Case `json:"a"`
+	B     *Case `json:"b"`
+	Sched []int `json:"schedule"` // which hand takes the next step: 0 = A, 1 = B
+}
+
+func runTwo(c *twoCase, chA, chB Chooser, next func(i int) int, st *vlib.Stats) *vlib.Violation {
+	mk := func(cs *Case) *Hand {
+		cs.Cfg.ConstructorDeck = true
+		return &Hand{Prop: "C14", Cfg: cs.Cfg, St: st, Mons: []Monitor{&dealMon{}}}
+	}
+	hs := [2]*Hand{mk(c.A), mk(c.B)}
+	chs := [2]Chooser{chA, chB}
+	begun := [2]bool{}
+	done := [2]bool{}
+	defer func() { c.A.Ops, c.B.Ops = hs[0].Ops, hs[1].Ops }()
+	for i := 0; !(done[0] && done[1]); i++ {
+		k := next(i)
+		if done[k] {
+			k = 1 - k
+		}
+		c.Sched = append(c.Sched, k)
+		h := hs[k]
+		if !begun[k] {
+			begun[k] = true
+			if v := h.Begin(); v != nil {
+				return v
+			}
+			if h.Aborted {
+				done[k] = true
+			}
+			continue
+		}
+		d, v := h.StepOnce(chs[k])
+		if v != nil {
+			v.Detail = fmt.Sprintf("hand %c of two interleaved hands: %s", 'A'+k, v.Detail)
+			return v
+		}
+		if d || h.Aborted {
+			done[k] = true
+		}
+		if i > 3*hardStepLimit {
+			break
+		}
+	}
+	return nil
+}
+
+func TestTwoTables(t *testing.T) {
+	st := vlib.NewStats("two-tables")
+	vlib.RunRapid(t, "hand", "two", st, func(rt *rapid.T) vlib.Outcome {
+		pr := Profile{MaxN: 6}
+		a := GenCfg(rt, pr)
+		b := GenCfg(rt, pr)
+		b.ShortDeck, b.ShortTable = a.ShortDeck, a.ShortTable
+		for b.Hole*b.N+8 > len(baseDeck(b.ShortDeck)) {
+			b.N--
+			b.Bank = b.Bank[:b.N]
+			if b.Dealer >= b.N {
+				b.Dealer = 0
+			}
+		}
+		c := &twoCase{A: &Case{Prop: "C14", Cfg: a}, B: &Case{Prop: "C14", Cfg: b}}
+		chA, chB := NewRapidChooser(rt, pr), NewRapidChooser(rt, pr)
+		bias := rapid.IntRange(1, 3).Draw(rt, "bias")
+		v := runTwo(c, chA, chB, func(i int) int {
+			if rapid.IntRange(0, 3).Draw(rt, "who") < bias {
+				return 0
+			}
+			return 1
+		}, st)
+		st.Evaluations++
+		switches := 0
+		for i := 1; i < len(c.Sched); i++ {
+			if c.Sched[i] != c.Sched[i-1] {
+				switches++
+			}
+		}
+		if switches >= 4 {
+			st.NonTrivial(vlib.Hash(c.A.Cfg.Bank, c.B.Cfg.Bank, c.Sched, c.A.Ops, c.B.Ops))
+			st.Sample(map[string]interface{}{"hand_a": sampleOf(c.A), "hand_b": sampleOf(c.B), "schedule": c.Sched})
+		}
+		st.ClassIf(switches >= 4, "interleaved>=4-switches")
+		return vlib.Outcome{Case: c, Violation: v}
+	})
+}
+
+func replayTwo(c *twoCase) *vlib.Violation {
+	sched := c.Sched
+	cc := &twoCase{A: &Case{Prop: "C14", Cfg: c.A.Cfg}, B: &Case{Prop: "C14", Cfg: c.B.Cfg}}
+	return runTwo(cc, &ReplayChooser{Ops: c.A.Ops}, &ReplayChooser{Ops: c.B.Ops}, func(i int) int {
+		if i < len(sched) {
+			return sched[i]
+		}
+		return i % 2
+	}, vlib.NewStats("replay"))
+}
